@@ -121,11 +121,20 @@ def run_case(case):
     if kind == "strain":
         i, j = case["ij"]
         v = R.S2V[(i, j)]
-        e = _e(i, j)
+        try:
+            e = _e(i, j)
+        except Exception as ex:
+            return {"viol": [V("c10:strain-rejected:2arg", f"e_({i},{j}) raised {ex!r}")], "outcome": "rejected"}
         exp = R.V2S[v]
         import numpy
-        for name, s in {"rev": _e(j, i), "voigt": _e(v), "str2": _e(f"{i}{j}"), "int2": _e(int(f"{i}{j}")), "str1": _e(str(v)),
-                        "np2": _e(numpy.int64(i), numpy.int64(j))}.items():
+        spell = {}
+        for name, args in {"rev": (j, i), "voigt": (v,), "str2": (f"{i}{j}",), "int2": (int(f"{i}{j}"),), "str1": (str(v),),
+                           "np2": (numpy.int64(i), numpy.int64(j))}.items():
+            try:
+                spell[name] = _e(*args)
+            except Exception as ex:
+                viol.append(V(f"c10:strain-rejected:{name}", f"e_{args} (a valid spelling of strain index ({i},{j})) raised {ex!r}"))
+        for name, s in spell.items():
             if s != e or hash(s) != hash(e):
                 viol.append(V(f"c10:strain-spelling:{name}", f"e_ spelling {name} of ({i},{j}) -> {s!r} != {e!r}"))
         if e.voigt != v or tuple(e.standard) != exp or e.v != v or tuple(e.s) != exp:
